@@ -37,6 +37,7 @@ func runC01(c *Ctx) {
 	ruleRebuild(c, p, "C01.rebuild")
 	ruleForward(c, p)
 	ruleInferTables(c, p, "C01")
+	ruleOffsetsAppend(c, p)
 	c.R.Assumptions = append(c.R.Assumptions,
 		"decided: append-only encoders, agreement of encoder / vectored writer / decoder on sequence and width of what is on the wire in every build configuration and revision, LowCardinality key width and per-width key columns, state/prepare forwarding of wrappers; not decided: equality of decoded and encoded values for all inputs")
 }
@@ -490,4 +491,115 @@ func widthFactor(fn *ssa.Function) (int64, bool) {
 		}
 	}
 	return factors[0], true
+}
+
+// ruleOffsetsAppend: offset-carrying columns append the cumulative offset after the elements.
+func ruleOffsetsAppend(c *Ctx, p *core.Program) {
+	rule := "C01.offsets"
+	c.R.Rule(rule, "in every Append* method of a column with an Offsets field (Array, Map) each value appended to Offsets is the inner column's Rows() (cumulative end offset) read after the row's elements were appended: the element appends dominate the Rows() call whose result is stored")
+	cfg := p.Cfg.Name
+	n := 0
+	for _, ct := range columnTypes(p) {
+		st, ok := ct.Underlying().(*types.Struct)
+		if !ok {
+			continue
+		}
+		has := false
+		for i := 0; i < st.NumFields(); i++ {
+			if st.Field(i).Name() == "Offsets" {
+				has = true
+			}
+		}
+		if !has {
+			continue
+		}
+		for i := 0; i < ct.NumMethods(); i++ {
+			m := ct.Method(i)
+			if !strings.HasPrefix(m.Name(), "Append") {
+				continue
+			}
+			fn := p.Prog.FuncValue(m)
+			if fn == nil || fn.Blocks == nil {
+				continue
+			}
+			type offAppend struct {
+				at   ssa.Instruction
+				vals []ssa.Value
+			}
+			var apps []offAppend
+			for _, b := range fn.Blocks {
+				for _, in := range b.Instrs {
+					switch x := in.(type) {
+					case *ssa.Store:
+						fa, ok := x.Addr.(*ssa.FieldAddr)
+						if !ok || fieldNameOnly(fa.X.Type(), fa.Field) != "Offsets" {
+							continue
+						}
+						ap, ok := x.Val.(*ssa.Call)
+						if !ok {
+							if ct2, ok := x.Val.(*ssa.ChangeType); ok {
+								ap, _ = ct2.X.(*ssa.Call)
+							}
+						}
+						if ap != nil && len(ap.Call.Args) == 2 {
+							apps = append(apps, offAppend{in, variadicElems(ap.Call.Args[1])})
+						}
+					case *ssa.Call:
+						f := core.CalleeFunc(x)
+						if f == nil || f.Name() != "Append" || x.Call.IsInvoke() || len(x.Call.Args) != 2 {
+							continue
+						}
+						if fa, ok := x.Call.Args[0].(*ssa.FieldAddr); ok && fieldNameOnly(fa.X.Type(), fa.Field) == "Offsets" {
+							apps = append(apps, offAppend{in, []ssa.Value{x.Call.Args[1]}})
+						}
+					}
+				}
+			}
+			for _, oa := range apps {
+				n++
+				key := "offsets/" + ct.Obj().Name() + "." + m.Name()
+				var rowsCall *ssa.Call
+				for _, e := range oa.vals {
+					core.DependsOn(e, func(v ssa.Value) bool {
+						if cl, ok := v.(*ssa.Call); ok && cl.Call.IsInvoke() && cl.Call.Method.Name() == "Rows" {
+							rowsCall = cl
+							return true
+						}
+						return false
+					}, false)
+				}
+				if rowsCall == nil {
+					c.R.Bad(rule, key, cfg, p.Pos(oa.at.Pos()), "the offset appended is not the inner column's Rows()")
+					continue
+				}
+				bad := false
+				nElem := 0
+				for _, call := range core.Calls(fn) {
+					f := core.CalleeFunc(call)
+					if f == nil || !strings.HasPrefix(f.Name(), "Append") || !call.Common().IsInvoke() {
+						continue
+					}
+					nElem++
+					ci := call.(ssa.Instruction)
+					// an element append between reading Rows() and appending the offset
+					w := core.ReachAvoiding(core.PointOf(rowsCall), func(x ssa.Instruction) bool { return x == ci }, func(x ssa.Instruction) bool { return x == oa.at }, nil)
+					if len(w) > 0 {
+						bad = true
+					}
+					// Rows() read without the element appends of this row before it
+					if !core.Dominates(ci, rowsCall) && !core.InLoop(ci) {
+						bad = true
+					}
+				}
+				if bad || nElem == 0 {
+					c.R.Bad(rule, key, cfg, p.Pos(oa.at.Pos()), "the offset is read before the row's elements are appended (or no elements are appended): every row's end offset is the previous row's")
+				} else {
+					c.R.Ok(rule, key, cfg, p.Pos(oa.at.Pos()), "elements appended, then Offsets += inner.Rows()")
+				}
+			}
+		}
+	}
+	if n < 3 {
+		c.R.Unk(rule, "population", cfg, "", sprintf("%d offset appends found", n))
+	}
 }
